@@ -68,13 +68,27 @@ fn check_copies(s: &gen::Sharing, case: &mut Case) -> Result<(), Fail> {
     let ap = s.assemble();
     super::c02::classes_of(&ap, case);
     case.nontrivial = ap.records().any(|r| r.name.0.len() >= 2 || matches!(&r.rdata, ARData::Typed { fields, .. } if fields.iter().any(|f| matches!(f, Val::Bytes(_) | Val::Strs(_) | Val::Pairs(_) | Val::Windows(_) | Val::Name(_)))));
-    let built = lib("build", || build(&ap))?.map_err(|e| Fail::new("harness:build", e))?;
-    let u = ser_plain(&built)?;
-    let c = ser_compressed(&built)?;
+    // normally the packet is built through the public constructors; should one of them refuse a value of the
+    // generated domain, the values are obtained by parsing the reference encoding instead (received data is as much
+    // a subject of the statement as built data)
+    let refwire = encode_message(&ap, &EncOpts::plain());
+    let built_opt: Option<Packet> = lib("build", || build(&ap))?.ok();
+    let from_wire: Option<Packet> = if built_opt.is_none() {
+        case.class("constructor-refused:reference-encoding-parsed-instead");
+        match parse(&refwire)? {
+            Ok(p) => Some(p),
+            Err(_) => return Ok(()),
+        }
+    } else {
+        None
+    };
+    let base: &Packet = built_opt.as_ref().or(from_wire.as_ref()).unwrap();
+    let u = ser_plain(base)?;
+    let c = ser_compressed(base)?;
     // values borrowed from two different receive buffers
     let pu = parse(&u)?.map_err(|e| Fail::new("c16:unparseable", format!("{:?}", e)))?;
     let pc = parse(&c)?.map_err(|e| Fail::new("c16:unparseable", format!("{:?}", e)))?;
-    for (name, p) in [("built", &built), ("parsed-plain", &pu), ("parsed-compressed", &pc)] {
+    for (name, p) in [("built", base), ("parsed-plain", &pu), ("parsed-compressed", &pc)] {
         // clone and owned rebuild serialise identically
         let cl = lib("Packet::clone", || p.clone())?;
         ensure!(ser_plain(&cl)? == u && ser_compressed(&cl)? == c, "c16:clone-bytes", "{}: clone of the packet serialises differently", name);
@@ -100,10 +114,10 @@ fn check_copies(s: &gen::Sharing, case: &mut Case) -> Result<(), Fail> {
     }
     // equal values built along different paths
     let secs = |p: &Packet| -> Vec<ResourceRecord<'static>> { p.answers.iter().chain(&p.name_servers).chain(&p.additional_records).cloned().map(|r| r.into_owned()).collect() };
-    let (rb, ru, rc) = (secs(&built), secs(&pu), secs(&pc));
+    let (rb, ru, rc) = (secs(base), secs(&pu), secs(&pc));
     ensure!(rb.len() == ru.len() && ru.len() == rc.len(), "c16:count", "record counts differ between paths");
     for i in 0..rb.len() {
-        same_record(&built_record(&built, i), &ru[i], "built vs parsed-plain")?;
+        same_record(&built_record(base, i), &ru[i], "built vs parsed-plain")?;
         same_record(&ru[i], &rc[i], "parsed-plain vs parsed-compressed")?;
     }
     case.extra_evals = 3 * rb.len() as u64;
